@@ -35,4 +35,41 @@ def traces():
         evs.append(dict(f, op="shape_line", slide=0, shape=0, what="fill", wv=12700, dash=None))
         evs.append(dict(f, op="cell_prop", slide=0, shape=0, r=0, c=0, prop="fill", m=None, v=0))
     out.append(T("fill-choice-groups", evs))
+    # every corpus deck once: a short formatting history on whatever it contains (selectors wrap around; operations that
+    # find no target are skipped), so that every PowerPoint-authored pre-state is exercised on every run
+    import os
+    decks = sorted(f for f in os.listdir(os.path.join(os.path.dirname(os.path.dirname(os.path.dirname(os.path.dirname(os.path.abspath(__file__))))), "decks")) if f.endswith(".pptx"))
+    fill = dict(mode="solid", rgb="00AA55", theme="ACCENT_2", pattern="DIVOT", angle=None, bright=-0.25, stop=None)
+    grad = dict(fill, mode="gradient", angle=90.5, stop=1)
+    for d in decks:
+        evs = []
+        for sl_ in (0, 1, 2):
+            evs += [
+                {"op": "tf_text", "slide": sl_, "shape": 0, "text": "\vlead\nsecond"},
+                {"op": "para_prop", "slide": sl_, "shape": 0, "para": 0, "prop": "line_spacing", "v": 1.5},
+                {"op": "para_prop", "slide": sl_, "shape": 1, "para": 1, "prop": "space_before", "v": {"pt": 6}},
+                {"op": "font_prop", "slide": sl_, "shape": 0, "para": 0, "run": 0, "where": "run", "prop": "theme", "v": "ACCENT_1"},
+                {"op": "font_prop", "slide": sl_, "shape": 2, "para": 0, "run": 0, "where": "para", "prop": "size", "v": {"pt": 10.5}},
+                {"op": "tf_prop", "slide": sl_, "shape": 1, "prop": "auto_size", "v": 2, "m": 0},
+                {"op": "tf_prop", "slide": sl_, "shape": 1, "prop": "margin_left", "v": 0, "m": 12345},
+                dict(fill, op="shape_fill", slide=sl_, shape=0), dict(grad, op="shape_fill", slide=sl_, shape=1),
+                dict(fill, op="shape_line", slide=sl_, shape=0, what="fill", wv=0, dash=None),
+                {"op": "shape_line", "slide": sl_, "shape": 1, "what": "dash", "wv": 0, "dash": "LONG_DASH_DOT", **fill},
+                {"op": "shape_shadow", "slide": sl_, "shape": 0, "v": False},
+                {"op": "set_rotation", "slide": sl_, "shape": 0, "v": 359.99},
+                {"op": "cell_text", "slide": sl_, "shape": 0, "r": 0, "c": 0, "text": "cell\vbreak"},
+                dict(fill, op="cell_prop", slide=sl_, shape=0, r=0, c=1, prop="fill", m=None, v=0),
+                {"op": "cell_merge", "slide": sl_, "shape": 0, "r": 0, "c": 0, "r2": 1, "c2": 1},
+                {"op": "table_flag", "slide": sl_, "shape": 0, "r": 0, "c": 0, "flag": "last_col", "v": True},
+                {"op": "run_hyperlink", "slide": sl_, "shape": 0, "para": 0, "run": 0, "addr": "http://example.com/?a=1&b=2"},
+                {"op": "click_target", "slide": sl_, "shape": 1, "target": 0},
+                {"op": "background_fill", "slide": sl_, "mode": "solid", "where": "slide", "rgb": "123456"},
+                {"op": "notes_text", "slide": sl_, "text": "note\nline"},
+            ]
+            for k in range(6):
+                evs.append({"op": "chart_fmt", "slide": sl_, "shape": k, "what": ["has_title", "title_text", "cat_axis", "val_axis", "data_labels", "series_fill"][k],
+                            "b": True, "i": k, "j": k + 1, "text": "T<&>", "f": 10, **fill})
+        evs.append({"op": "add_slide", "layout": 1})
+        evs.append({"op": "checkpoint", "sink": "seekable"})
+        out.append(T("corpus-%s" % d, evs, start=[{"deck": d}]))
     return out
